@@ -166,6 +166,7 @@ type channel struct {
 	sendFailed     int32        // the sender gave up after a transport failure: queued packets will not be sent
 	closeErr       atomic.Value // closeCause of the Close call that took effect
 	writeLock      sync.Mutex   // for sync write
+	messageLock    sync.Mutex   // held by the head handler while it writes one message
 }
 
 // closeCause wraps the (possibly nil) error given to Close so that it can be kept in an atomic.Value.
